@@ -74,9 +74,14 @@ class C15Transform(Harness):
             yield f"tf-{name}-point", dict(cls=name, rows=1)
             yield f"tf-{name}-array", dict(cls=name, rows=2)
             yield f"tf-{name}-wrongdim", dict(cls=name, rows=0)
+            # a block with more than two array dimensions whose last axis has the right length (1 x 1 x d): refused as well,
+            # by transform and by fill_n
+            yield f"tf-{name}-block3d", dict(cls=name, rows=0, block=True)
 
     def declare(self, cx, p):
         d = CLS[p["cls"]][1]
+        if p["rows"] == 0 and p.get("block"):
+            return {"p": [_pt(cx, "p", d)]}
         if p["rows"] == 0:
             return {"p": [_pt(cx, "p", 3 if (d == 2 and p["cls"] != "radial2") else 4)]}
         x = {"p": [_pt(cx, f"p{i}", d) for i in range(p["rows"])]}
@@ -98,6 +103,10 @@ class C15Transform(Harness):
     def drive(self, E, p, x):
         np = E.np
         cls = getattr(E.mod("physt.special_histograms"), CLS[p["cls"]][0])
+        if p["rows"] == 0 and p.get("block"):
+            block = np.asarray([[x["p"][0]]], dtype=float)
+            r = E.attempt(cls.transform, block)
+            return {"res": {"raised": r} if isinstance(r, Raised) else {"shape": list(getattr(r, "shape", ()))}}
         if p["rows"] == 0:
             r = E.attempt(cls.transform, np.asarray(x["p"][0], dtype=float))
             return {"res": {"raised": r} if isinstance(r, Raised) else {"shape": list(getattr(r, "shape", ()))}}
@@ -187,6 +196,8 @@ class C15Paths(Harness):
             if "phi" in CLS[name][2]:
                 for way in ("fill", "fill_n", "find_bin") + (("facade",) if name != "cylinder_surface" else ()):
                     yield f"path-{name}-{way}-negzero", dict(cls=name, way=way, negzero=True)
+            if name in ("polar", "spherical", "sphere_surface", "cylindrical"):
+                yield f"path-{name}-facade_transformed", dict(cls=name, way="facade_transformed")
             for way in ("find_then_fill", "fill_n_twice") + (("facade_then_fill_n",) if name in ("spherical", "sphere_surface", "cylindrical") else ()):
                 yield f"path-{name}-{way}", dict(cls=name, way=way)
 
@@ -225,6 +236,22 @@ class C15Paths(Harness):
         pt = np.asarray(x["p"], dtype=float)
         bins = [np.asarray(e) for e in x["e"]]
         obs = {}
+        if way == "facade_transformed":
+            cls = getattr(sp, CLS[name][0])
+            t = E.attempt(cls.transform, np.asarray([x["p"]], dtype=float))
+            if isinstance(t, Raised):
+                return {"op": {"raised": t}}
+            if name == "polar":
+                r = E.attempt(sp.polar, t[:, 0], t[:, 1], radial_bins=bins[0], phi_bins=bins[1], transformed=True)
+            elif name == "spherical":
+                r = E.attempt(sp.spherical, t, radial_bins=bins[0], theta_bins=bins[1], phi_bins=bins[2], transformed=True)
+            elif name == "sphere_surface":
+                r = E.attempt(sp.spherical_surface, t, theta_bins=bins[0], phi_bins=bins[1], transformed=True)
+            else:
+                r = E.attempt(sp.cylindrical, t, rho_bins=bins[0], phi_bins=bins[1], z_bins=bins[2], transformed=True)
+            if isinstance(r, Raised):
+                return {"op": {"raised": r}}
+            return {"op": "ok", "freq": r.frequencies.tolist(), "cls": type(r).__name__, "total": r.total}
         if way == "facade":
             xs = [np.asarray([c], dtype=float) for c in x["p"]]
             data = np.asarray([x["p"]], dtype=float)
